@@ -109,12 +109,13 @@ Record inv (s : st) : Prop := mk_inv {
   inv_entries : Forall (entry_ok s) (completed s);
   inv_new_w : Forall (fun p => p <> WSpawned) (work s);
   inv_new_d : Forall new_d (disp s);
-  inv_nopanic : 1 <= limit s -> Forall (fun p => p <> DPanicked) (disp s)
+  inv_nopanic : Forall (fun p => p <> DPanicked) (disp s);
+  inv_lim1 : 1 <= limit s
 }.
 
-Lemma inv_init : forall l d, inv (init l d).
+Lemma inv_init : forall l d, 1 <= l -> inv (init l d).
 Proof.
-  intros. constructor; unfold init, alive, reserved, holders, delivered, running_j; simpl.
+  intros l d L. constructor; unfold init, alive, reserved, holders, delivered, running_j; simpl.
   - rewrite sumf_repeat0; auto.
   - lia.
   - intros; lia.
@@ -123,7 +124,8 @@ Proof.
   - constructor.
   - constructor.
   - apply Forall_forall. intros x H. apply repeat_spec in H. subst. exact I.
-  - intros _. apply Forall_forall. intros x H. apply repeat_spec in H. subst. discriminate.
+  - apply Forall_forall. intros x H. apply repeat_spec in H. subst. discriminate.
+  - exact L.
 Qed.
 
 Ltac break_step H :=
@@ -275,4 +277,254 @@ Proof.
     try (apply Forall_upd; [assumption | simpl; congruence || exact I]);
     try (apply Forall_snoc; [assumption | congruence]);
     eqb_cases; try lia.
+Qed.
+
+Lemma step_inv : forall s e s', step s e = Some s' -> inv s -> inv s'.
+Proof.
+  intros s e s' H [Ic Il Ih If Ir Ie Iw Id Ip L].
+  destruct (step_counter _ _ _ H Ic Il) as [A B].
+  destruct (step_hold _ _ _ H L Ih If) as [C D].
+  destruct (step_wf _ _ _ H L Iw Id Ip) as (E & F & G).
+  constructor; auto.
+  - eapply step_runs; eauto.
+  - eapply step_entries; eauto.
+  - rewrite (step_limit _ _ _ H). exact L.
+Qed.
+
+Lemma steps_inv : forall es s s', steps s es = Some s' -> inv s -> inv s'.
+Proof.
+  induction es; simpl; intros s s' H I.
+  - inversion H; subst; auto.
+  - unfold steps in *. simpl in H. destruct (step s a) eqn:E; try discriminate.
+    eapply IHes; eauto. eapply step_inv; eauto.
+Qed.
+
+Lemma reachable_inv : forall l d es s, 1 <= l -> steps (init l d) es = Some s -> inv s.
+Proof. intros. eapply steps_inv; eauto. apply inv_init; auto. Qed.
+
+(* ---------------------------------------------------------------------- *)
+(* bounded: for every limit (0 included), any number of dispatchers *)
+
+Lemma steps_limit : forall es s s', steps s es = Some s' -> limit s' = limit s.
+Proof.
+  induction es; unfold steps; simpl; intros s s' H.
+  - inversion H; auto.
+  - destruct (step s a) eqn:E; try discriminate.
+    rewrite (IHes _ _ H). eapply step_limit; eauto.
+Qed.
+
+Lemma steps_counter : forall es s s', steps s es = Some s' ->
+  counter s = alive s + reserved s -> counter s <= limit s ->
+  counter s' = alive s' + reserved s' /\ counter s' <= limit s'.
+Proof.
+  induction es; unfold steps; simpl; intros s s' H A B.
+  - inversion H; subst; auto.
+  - destruct (step s a) eqn:E; try discriminate.
+    destruct (step_counter _ _ _ E A B). eapply IHes; eauto.
+Qed.
+
+Lemma running_le_alive : forall s, running s <= alive s.
+Proof. intros. apply sumf_le. destruct x; simpl; lia. Qed.
+
+Lemma bounded : forall l d es s, steps (init l d) es = Some s ->
+  counter s = alive s + reserved s /\ counter s <= l /\ alive s <= l /\ running s <= l.
+Proof.
+  intros l d es s H.
+  destruct (steps_counter _ _ _ H) as [A B].
+  - unfold init, alive, reserved; simpl. rewrite sumf_repeat0; auto.
+  - simpl. lia.
+  - rewrite (steps_limit _ _ _ H) in B. simpl in B.
+    pose proof (running_le_alive s). lia.
+Qed.
+
+Lemma guard_never_underflows : forall l d es s w, steps (init l d) es = Some s ->
+  nth_error (work s) w = Some WExiting ->
+  1 <= counter s /\ exists s', step s (EGuardDrop w) = Some s'.
+Proof.
+  intros l d es s w H Hw. destruct (bounded _ _ _ _ H) as (A & _).
+  pose proof (sumf_nth_le _ alive_w _ _ _ Hw) as P. simpl in P. unfold alive in A.
+  split; [lia|]. unfold step, step_common. rewrite Hw.
+  destruct (counter s); [lia | eauto].
+Qed.
+
+(* ---------------------------------------------------------------------- *)
+(* exactly once *)
+
+Lemma entry_of_delivered : forall j l, 1 <= sumf (is_entry j) l ->
+  exists e, In e l /\ snd (fst e) = j.
+Proof.
+  intros j l H. destruct (sumf_pos_ex _ _ _ H) as (k & y & A & B).
+  exists y. split; [eapply nth_error_In; eauto|].
+  unfold is_entry in B. destruct (Nat.eqb_spec (snd (fst y)) j); auto. simpl in B. lia.
+Qed.
+
+Lemma exactly_once : forall l d es s j x, 1 <= l ->
+  steps (init l d) es = Some s -> nth_error (jobs s) j = Some x ->
+  holders s j + delivered s j = 1 /\
+  runs x = running_j s j + delivered s j /\
+  runs x <= 1 /\
+  (delivered s j = 1 -> runs x = 1 /\ holders s j = 0 /\ In (owner x, j, panics x) (completed s)) /\
+  (forall e, In e (completed s) -> snd (fst e) = j -> e = (owner x, j, panics x)).
+Proof.
+  intros l d es s j x L H Hx.
+  destruct (reachable_inv _ _ _ _ L H) as [Ic Il Ih If Ir Ie Iw Id Ip _].
+  assert (Hj : j < length (jobs s)) by (apply nth_error_Some; congruence).
+  specialize (Ih _ Hj). specialize (Ir _ _ Hx).
+  pose proof (running_le_holders s j) as R.
+  assert (Q : forall e, In e (completed s) -> snd (fst e) = j -> e = (owner x, j, panics x)).
+  { intros e He Hej. rewrite Forall_forall in Ie. destruct (Ie _ He) as (y & A & B & C).
+    rewrite Hej in A. rewrite Hx in A. inversion A; subst.
+    destruct e as [[a b] c]; simpl in *. congruence. }
+  repeat split; auto; try lia.
+  destruct (entry_of_delivered j (completed s)) as (e & He & Hej).
+  { unfold delivered in H0. lia. }
+  rewrite <- (Q _ He Hej). exact He.
+Qed.
+
+(* ---------------------------------------------------------------------- *)
+(* a rejected dispatch hands the very closure back; the retry loop *)
+
+Lemma hd_holder_unique : forall s j d p, inv s ->
+  nth_error (disp s) d = Some p -> hd j p = 1 ->
+  j < length (jobs s) /\ sumf (hw j) (work s) = 0 /\ delivered s j = 0 /\ holders s j = 1.
+Proof.
+  intros s j d p I Hd Hp. destruct I as [_ _ Ih If _ _ _ _ _ _].
+  pose proof (sumf_nth_le _ (hd j) _ _ _ Hd) as P.
+  destruct (lt_dec j (length (jobs s))).
+  - specialize (Ih _ l). unfold holders in *. repeat split; auto; lia.
+  - destruct (If j) as [A B]; [lia|]. unfold holders in A. lia.
+Qed.
+
+Lemma handed_back : forall l d es s dd s', 1 <= l ->
+  steps (init l d) es = Some s -> step s (ECheckFail dd) = Some s' ->
+  exists j x,
+    nth_error (disp s) dd = Some (DFull j) /\ nth_error (disp s') dd = Some (DRejected j) /\
+    limit s <= counter s /\
+    jobs s' = jobs s /\ work s' = work s /\ completed s' = completed s /\ counter s' = counter s /\
+    nth_error (jobs s') j = Some x /\ runs x = 0 /\ holders s' j = 1 /\ delivered s' j = 0.
+Proof.
+  intros l d es s dd s' L H Hs.
+  pose proof (reachable_inv _ _ _ _ L H) as I.
+  pose proof (step_inv _ _ _ Hs I) as I'.
+  unfold step, step_common in Hs. break_step Hs.
+  assert (Hd' : nth_error (disp (set_d s dd (DRejected j))) dd = Some (DRejected j)).
+  { unfold set_d; simpl. eapply nth_error_upd_eq; eauto. }
+  destruct (hd_holder_unique _ j _ _ I' Hd') as (A & B & C & D).
+  { simpl. apply b2n_eqb_refl. }
+  destruct (nth_error (jobs (set_d s dd (DRejected j))) j) as [x|] eqn:Hx.
+  2:{ apply nth_error_None in Hx. lia. }
+  exists j, x. apply Nat.leb_le in Heqb0.
+  repeat split; auto.
+  destruct I' as [_ _ _ _ Ir _ _ _ _ _]. specialize (Ir _ _ Hx).
+  pose proof (sumf_le _ (rw j) (hw j) (work (set_d s dd (DRejected j))) (rw_le_hw j)).
+  unfold running_j in Ir. lia.
+Qed.
+
+Lemma no_lost_job_on_retry : forall l d es s dd s1 s2, 1 <= l ->
+  steps (init l d) es = Some s ->
+  step s (ECheckFail dd) = Some s1 -> step s1 (ERetry dd) = Some s2 ->
+  exists j x,
+    nth_error (disp s) dd = Some (DFull j) /\ nth_error (disp s2) dd = Some (DTry j) /\
+    jobs s2 = jobs s /\ work s2 = work s /\ completed s2 = completed s /\
+    nth_error (jobs s2) j = Some x /\ runs x = 0 /\ holders s2 j = 1 /\ delivered s2 j = 0.
+Proof.
+  intros l d es s dd s1 s2 L H H1 H2.
+  destruct (handed_back _ _ _ _ _ _ L H H1) as (j & x & A & B & _ & C & D & E & F & G & R & _ & _).
+  pose proof (reachable_inv _ _ _ _ L H) as I.
+  pose proof (step_inv _ _ _ H2 (step_inv _ _ _ H1 I)) as I2.
+  unfold step, step_common in H2. rewrite B in H2. inversion H2; subst; clear H2.
+  assert (Hd : nth_error (disp (set_d s1 dd (DTry j))) dd = Some (DTry j)).
+  { unfold set_d; simpl. eapply nth_error_upd_eq; eauto. }
+  destruct (hd_holder_unique _ j _ _ I2 Hd) as (P & Q & S & T).
+  { simpl. apply b2n_eqb_refl. }
+  exists j, x. unfold set_d in *; simpl in *. repeat split; auto; congruence.
+Qed.
+
+(* ---------------------------------------------------------------------- *)
+(* after every worker retired, a later dispatch spawns a worker and the job runs *)
+
+Lemma forallb_nth : forall A (f : A -> bool) l k y,
+  forallb f l = true -> nth_error l k = Some y -> f y = true.
+Proof.
+  induction l; destruct k; simpl; intros; try discriminate;
+    apply andb_true_iff in H; destruct H.
+  - inversion H0; subst; auto.
+  - eauto.
+Qed.
+
+Lemma sumf_zero_forallb : forall A (f : A -> nat) (g : A -> bool) l,
+  (forall x, g x = true -> f x = 0) -> forallb g l = true -> sumf f l = 0.
+Proof.
+  induction l; simpl; intros; auto. apply andb_true_iff in H0. destruct H0.
+  rewrite (H _ H0), IHl; auto.
+Qed.
+
+Lemma all_exited_no_recv : forall s, all_exited s = true -> any_recv s = false.
+Proof.
+  unfold all_exited, any_recv. intros s. induction (work s); simpl; intros; auto.
+  apply andb_true_iff in H. destruct H. destruct a; try discriminate. simpl. auto.
+Qed.
+
+Lemma retire_then_run : forall l d es s dd p, 1 <= l ->
+  steps (init l d) es = Some s ->
+  all_exited s = true -> all_idle s = true -> dd < length (disp s) ->
+  let j := length (jobs s) in
+  let w := length (work s) in
+  exists s1 s',
+    step s (ECall dd p) = Some s1 /\
+    (forall w', step s1 (ETrySendOk dd w') = None) /\
+    steps s1 [ETrySendFull dd; ECheckOk dd; ESpawn dd; EStart w; EEnd w] = Some s' /\
+    length (work s') = S w /\ nth_error (work s') w = Some WLoop /\
+    nth_error (jobs s') j = Some (mk_job dd p 1) /\
+    completed s' = completed s ++ [(dd, j, p)].
+Proof.
+  intros l d es s dd p L H Hx Hi Hd j w.
+  pose proof (reachable_inv _ _ _ _ L H) as I.
+  destruct I as [Ic Il _ _ _ _ _ _ _ L1].
+  assert (Hdd : nth_error (disp s) dd = Some DIdle).
+  { destruct (nth_error (disp s) dd) eqn:E.
+    - pose proof (forallb_nth _ _ _ _ _ Hi E). destruct d0; try discriminate; auto.
+    - apply nth_error_None in E. lia. }
+  assert (C0 : counter s = 0).
+  { rewrite Ic. unfold alive, reserved.
+    assert (A1 : sumf alive_w (work s) = 0).
+    { eapply sumf_zero_forallb; [|exact Hx]. intros x Hxx. destruct x; simpl in *; congruence. }
+    assert (A2 : sumf reserved_d (disp s) = 0).
+    { eapply sumf_zero_forallb; [|exact Hi]. intros x Hxx. destruct x; simpl in *; congruence. }
+    lia. }
+  pose proof (all_exited_no_recv _ Hx) as NR.
+  eexists. eexists.
+  split. { unfold step, step_common. rewrite Hdd. reflexivity. }
+  split.
+  { intros w'. unfold step, step_common, add_job, set_d; simpl.
+    erewrite nth_error_upd_eq by eauto.
+    destruct (nth_error (work s) w') eqn:E; auto.
+    pose proof (forallb_nth _ _ _ _ _ Hx E). destruct w0; try discriminate; auto. }
+  unfold steps. simpl.
+  (* ETrySendFull *)
+  unfold step at 1, step_common at 1. unfold add_job at 1 2, set_d at 1 2. simpl.
+  erewrite nth_error_upd_eq by eauto.
+  unfold any_recv in *. simpl. rewrite NR.
+  (* ECheckOk *)
+  unfold step at 1. unfold set_d at 1 2 3 4. simpl.
+  erewrite nth_error_upd_eq by (erewrite nth_error_upd_eq by eauto; reflexivity).
+  destruct (limit s =? 0) eqn:E0. { apply Nat.eqb_eq in E0. lia. }
+  rewrite C0. destruct (0 <? limit s) eqn:E1. 2:{ apply Nat.ltb_ge in E1. lia. }
+  (* ESpawn *)
+  unfold step at 1. unfold set_counter at 1, set_d at 1. simpl.
+  erewrite nth_error_upd_eq by (erewrite nth_error_upd_eq by (erewrite nth_error_upd_eq by eauto; reflexivity); reflexivity).
+  (* EStart *)
+  unfold step at 1, step_common at 1. unfold add_worker at 1 2, set_d at 1 2, set_counter at 1 2. simpl.
+  fold w. rewrite nth_error_app_last.
+  fold j. rewrite nth_error_app_last.
+  (* EEnd *)
+  unfold step at 1, step_common at 1. unfold set_jobs at 1 2, set_w at 1 2. simpl.
+  erewrite nth_error_upd_eq by (unfold w; apply nth_error_app_last).
+  erewrite nth_error_upd_eq by (unfold j; apply nth_error_app_last).
+  split; [reflexivity|]. simpl.
+  rewrite !length_upd, app_length. simpl.
+  split; [fold w; lia|].
+  split. { erewrite nth_error_upd_eq; [reflexivity|]. erewrite nth_error_upd_eq; [reflexivity|]. unfold w; apply nth_error_app_last. }
+  split. { erewrite nth_error_upd_eq; [reflexivity|]. unfold j; apply nth_error_app_last. }
+  reflexivity.
 Qed.
